@@ -239,6 +239,12 @@ func runC01(c *Ctx) {
 	c.poolSharedRule("R01.4", nil)
 	c.rule("R01.5", "every handler argument is the receiver, the context, the raw params, or a value decoded into a fresh reflect.New of the declared type (nothing left over from an earlier call can be merged in)")
 	c.argumentOrigins("R01.5")
+	c.ruleOpt("R01.7", "a successful reply carries the handler's value: between building the response and emitting it either the result or the error member is set on every path")
+	c.resultAlwaysSet("R01.7")
+	c.rule("R01.8", "tables filled by options (parameter encoders/decoders, aliases) belong to one client or server: each is a map made for that configuration value, never one shared through a package-level default")
+	c.configMapsOwned("R01.8")
+	c.rule("R01.9", "responses are routed by ids drawn from one counter per connection: no proxy function is bound to a copy of the client object")
+	c.clientCopyRule("R01.9", true)
 	c.rule("R01.6", "the context input and the error output of a signature are recognised by identity of the declared type with context.Context / error, never by Implements/AssignableTo/ConvertibleTo")
 	c.signatureClassification("R01.6")
 	if r.FnDisp == nil || r.FnCall == nil {
@@ -842,5 +848,187 @@ func (c *Ctx) signatureClassification(rule string) {
 					"a declared "+strings.ToLower(d)+" type is classified as the "+k+" by "+x.Common().Method.Name()+": a value type that merely implements the interface (a result struct with an Error method, a parameter type embedding a context) is then treated as the "+k+" slot — the server turns the value into an error (or drops the parameter) and the client's reflect.MakeFunc panics on the mismatching output")
 			}
 		})
+	}
+}
+
+// resultAlwaysSet: R01.7. In the function that builds the response value and hands it to the
+// success emitter, every path from the response's construction to the emission stores the result
+// member or (a non-nil value into) the error member. Paths on which neither happened know the error
+// member to be nil, so tests of it are decided. A reply with neither member set is encoded as
+// "result": null, which is not the JSON of what the handler returned for every type (a value
+// whose zero value marshals to something else, or whose decoder rejects null).
+func (c *Ctx) resultAlwaysSet(rule string) {
+	p, r := c.P, c.R
+	if r.FnDisp == nil || r.TResp == nil {
+		return
+	}
+	resF, errF := respFieldByTag(r.TResp, "result"), respFieldByTag(r.TResp, "error")
+	if resF == nil || errF == nil {
+		return
+	}
+	for _, g := range c.region(r.FnDisp) {
+		var resp *ssa.Alloc
+		var emits []ssa.Instruction
+		allInstrsRaw(g, func(in ssa.Instruction) {
+			if al, ok := in.(*ssa.Alloc); ok && al.Type().(*types.Pointer).Elem() == types.Type(r.TResp) {
+				// the response literal: one whose version member is stored
+				for _, ref := range *al.Referrers() {
+					if fa, ok := ref.(*ssa.FieldAddr); ok && fieldOfAddr(fa) == respFieldByTag(r.TResp, "jsonrpc") {
+						resp = al
+					}
+				}
+			}
+			if c.isSuccessEmit(in) {
+				emits = append(emits, in)
+			}
+		})
+		if resp == nil || len(emits) == 0 {
+			continue
+		}
+		fieldOf := func(addr ssa.Value) *types.Var {
+			fa, ok := addr.(*ssa.FieldAddr)
+			if !ok || fa.X != ssa.Value(resp) {
+				return nil
+			}
+			return fieldOfAddr(fa)
+		}
+		sets := func(in ssa.Instruction) bool {
+			st, ok := in.(*ssa.Store)
+			if !ok {
+				return false
+			}
+			switch fieldOf(st.Addr) {
+			case resF:
+				return true
+			case errF:
+				return !isNilConst(st.Val)
+			}
+			return false
+		}
+		isEmit := func(in ssa.Instruction) bool {
+			for _, e := range emits {
+				if e == in {
+					return true
+				}
+			}
+			return false
+		}
+		// on a path without any such store the error member is still nil
+		errNil := func(cond ssa.Value) int {
+			neg := false
+			for {
+				u, ok := cond.(*ssa.UnOp)
+				if !ok || u.Op != token.NOT {
+					break
+				}
+				cond, neg = u.X, !neg
+			}
+			bo, ok := cond.(*ssa.BinOp)
+			if !ok || (bo.Op != token.EQL && bo.Op != token.NEQ) {
+				return 0
+			}
+			other := bo.X
+			if isNilConst(bo.X) {
+				other = bo.Y
+			} else if !isNilConst(bo.Y) {
+				return 0
+			}
+			ld, ok := other.(*ssa.UnOp)
+			if !ok || ld.Op != token.MUL || fieldOf(ld.X) != errF {
+				return 0
+			}
+			truth := bo.Op == token.EQL
+			if neg {
+				truth = !truth
+			}
+			if truth {
+				return 1
+			}
+			return 2
+		}
+		s := &ipSearch{p: p, flat: true, seen: map[string]bool{}, factSeen: map[string][]*factSet{},
+			target: isEmit,
+			avoid:  func(in ssa.Instruction) bool { return sets(in) || isReturn(in) },
+			edgeOK: func(from *ssa.BasicBlock, k int) bool {
+				iff, ok := from.Instrs[len(from.Instrs)-1].(*ssa.If)
+				if !ok {
+					return true
+				}
+				switch errNil(iff.Cond) {
+				case 1:
+					return k == 0
+				case 2:
+					return k == 1
+				}
+				return true
+			}}
+		construct := fmt.Sprintf("%s: reply carries the result or the error", fname(g))
+		bare := s.scanF(resp.Block(), instrIndex(resp)+1, nil, nil)
+		c.check(!bare, rule, construct, c.ipos(resp), "result or error stored on every path to the emission", "a path reaches the success emission with neither the result nor the error member set (e.g. the result is left out when it is the zero value): the reply then says \"result\": null, which does not decode back into what the handler returned for types whose zero value marshals to something else or whose decoder rejects null")
+	}
+}
+
+// configMapsOwned: R01.8. A configuration struct T is one for which the package declares an
+// option type func(*T). Every map-typed field of T that some function updates (an option such as
+// WithParamEncoder writing c.paramEncoders[t] = enc) must get its value, at every store, from a
+// make/map literal executed in an ordinary function (the defaults constructor, run per client),
+// not in the package initialiser: a defaults value built once and handed out by value shares its
+// maps between all clients, so an encoder registered for one client is applied by every other.
+func (c *Ctx) configMapsOwned(rule string) {
+	p := c.P
+	cfg := map[*types.Named]bool{}
+	for _, pk := range []*ssa.Package{p.Root} {
+		sc := pk.Pkg.Scope()
+		for _, name := range sc.Names() {
+			tn, ok := sc.Lookup(name).(*types.TypeName)
+			if !ok {
+				continue
+			}
+			sig, ok := tn.Type().Underlying().(*types.Signature)
+			if !ok || sig.Params().Len() != 1 || sig.Results().Len() != 0 {
+				continue
+			}
+			if pt, ok := sig.Params().At(0).Type().(*types.Pointer); ok {
+				if nt, ok := pt.Elem().(*types.Named); ok && structOf(nt) != nil {
+					cfg[nt] = true
+				}
+			}
+		}
+	}
+	n := 0
+	for nt := range cfg {
+		st := structOf(nt)
+		for i := 0; i < st.NumFields(); i++ {
+			f := st.Field(i)
+			if _, isMap := f.Type().Underlying().(*types.Map); !isMap {
+				continue
+			}
+			if len(usesOfKind(p.uses(f), "mapupdate")) == 0 {
+				continue
+			}
+			n++
+			construct := fmt.Sprintf("%s.%s: table filled by options", nt.Obj().Name(), f.Name())
+			stores := usesOfKind(p.uses(f), "store")
+			okAll := len(stores) > 0
+			why := "the table is never made in an ordinary function: it comes from a package-level default built once, so every client (or server) created from the defaults shares it — an encoder, decoder or alias registered for one is applied by all"
+			for _, u := range stores {
+				fresh := c.allOrigins(u.Val, func(a apath) bool {
+					_, isMake := a.Root.(*ssa.MakeMap)
+					return isMake && len(a.Fields) == 0
+				})
+				if !fresh {
+					okAll = false
+					why = "the table is taken from somewhere else than a make/map literal of its own (" + c.ipos(u.At) + "): configurations built this way share it"
+				}
+			}
+			pos := "-"
+			if len(stores) > 0 {
+				pos = c.ipos(stores[0].At)
+			}
+			c.check(okAll, rule, construct, pos, "made per configuration value", why)
+		}
+	}
+	if n == 0 {
+		c.und(rule, "configuration tables", "-", "no map-typed configuration field updated by an option was found")
 	}
 }
